@@ -1,8 +1,385 @@
 /-
-C19 — property theorems (stub; see DESIGN.md §6).
+C19 — Estimator protocol; a model owns its state.  Property theorems about the
+model `ArtModel/Params.lean` of `BaseART.{__init__, __getattr__, __setattr__,
+get_params, set_params}` and of the eight elementary `validate_params`.
+
+Scope, stated plainly
+* PROVED here, for every store / every class description (and instantiated on
+  the class table that the check re-extracts from the source on every run):
+  `set_params(**get_params())` is a no-op; after an accepted `set_params` the
+  new values are what `get_params` returns and nothing else moved; constructing
+  with `p'` equals constructing with `p` and then `set_params(**p')`; unknown
+  names raise `ValueError`; a float outside a declared range raises
+  `AssertionError`; attribute reads/writes mirror `params`; a model whose
+  weights are all owned is not affected by `mutateRow` on a caller array.
+* The faithful model VIOLATES "rejects" in the sense "the rejected value is not
+  taken": `set_params` assigns before it validates (finding F25).  This file
+  therefore has `set_rejected_value_stays` (for every class and every rejected
+  float), the concrete `…_counterexample`s, and `_partial` theorems with the
+  explicit hypothesis that excludes the defect.
+* NOT modelled, hence NOT proved — covered by `harness/artv/checks/C19.py` on
+  the implementation only: anything about Python object graphs
+  (`copy.deepcopy`, `pickle`, `sklearn.base.clone`, `fit(...) is est`,
+  independence of two instances, identity of the dict returned by
+  `get_params`), nested estimators (`module_a__rho` routing is only recorded as
+  a delegated call), and the compound classes' own `get_params`/`set_params`.
+  In a pure functional model "a copy behaves identically" is `congrArg` and
+  says nothing about Python; it is deliberately not stated as a theorem.
 -/
-import ArtModel.Basic
+import ArtProofs.Params
 
 namespace Art.C19
+
+open Art.Params
+
+/-! ### facts about the class table (finite: `decide`) -/
+
+/-- every class of the table: constructor argument names are distinct, contain no `__`,
+do not collide with the attributes `BaseART.__init__` creates, and each is required by a
+`assert "k" in params` line of `validate_params` -/
+theorem table_wf : ∀ c ∈ classTable, c.args.Nodup ∧ (∀ a ∈ c.args, Plain a) ∧
+    (∀ a ∈ c.args, get? initAttrs a = none) ∧ (∀ a ∈ c.args, Check.has a ∈ c.checks) := by
+  decide
+
+/-- every class but BayesianART declares `1.0 >= rho >= 0.0`; BayesianART declares `rho > 0` -/
+theorem table_rho_range : ∀ c ∈ classTable,
+    (c.name ≠ "BayesianART" → Check.range "rho" ge0 le1 ∈ c.checks) ∧
+    (c.name = "BayesianART" → Check.range "rho" gt0 none ∈ c.checks) := by
+  decide
+
+/-! ### get / set -/
+
+/-- `est.set_params(**est.get_params())` returns normally and leaves a valid estimator unchanged. -/
+theorem set_get_noop (checks : List Check) (e : Est) (hwf : e.WF)
+    (hv : validate checks e.params = none) :
+    setParams checks e (getParams e) = ⟨e, none, []⟩ := by
+  by_cases hne : e.params = []
+  · simp [setParams, getParams, hne]
+  · have hpk : ∀ kv ∈ e.params, Plain kv.1 ∧ kv.1 ∈ keys e.params := by
+      intro kv hm
+      have : kv.1 ∈ keys e.params := List.mem_map.mpr ⟨kv, hm, rfl⟩
+      exact ⟨hwf.plain _ this, this⟩
+    have hid : applyAll e.params e.params = e.params :=
+      applyAll_id (fun kv hm => get?_of_mem_nodup hwf.nodup hm)
+    simp only [getParams]
+    rw [setParams_plain checks e e.params hne hpk, hid, hv]
+
+/-- An unknown name anywhere in the call raises `ValueError`. -/
+theorem set_rejects_unknown (checks : List Check) (e : Est) (kvs : List (String × Val))
+    (h : ∃ kv ∈ kvs, (partitionKey kv.1).1 ∉ keys e.params) :
+    (setParams checks e kvs).err = some .value := by
+  have hne : kvs.isEmpty = false := by
+    obtain ⟨kv, hm, _⟩ := h
+    cases kvs with
+    | nil => simp at hm
+    | cons a r => rfl
+  have hu := setLoop_unknown ⟨e, e.params, []⟩ kvs h
+  simp only [setParams, hne]
+  generalize setLoop ⟨e, e.params, []⟩ kvs = L at hu
+  obtain ⟨st, err⟩ := L
+  simp only at hu
+  subst hu
+  rfl
+
+/-- After an accepted `set_params` of plain names, `get_params` returns the new values,
+every other parameter is unchanged, and no parameter was added or removed. -/
+theorem set_then_get (checks : List Check) (e : Est) (kvs : List (String × Val))
+    (hp : ∀ kv ∈ kvs, Plain kv.1) (hn : (keys kvs).Nodup)
+    (hok : (setParams checks e kvs).err = none) :
+    (∀ kv ∈ kvs, get? (getParams (setParams checks e kvs).est) kv.1 = some kv.2) ∧
+    (∀ k, k ∉ keys kvs → get? (getParams (setParams checks e kvs).est) k = get? (getParams e) k) ∧
+    keys (getParams (setParams checks e kvs).est) = keys (getParams e) := by
+  by_cases hne : kvs = []
+  · subst hne
+    simp [setParams, getParams]
+  · have hknown : ∀ kv ∈ kvs, kv.1 ∈ keys e.params := by
+      intro kv hm
+      apply Classical.byContradiction
+      intro hnot
+      have hpl : partitionKey kv.1 = (kv.1, none) := hp kv hm
+      have := set_rejects_unknown checks e kvs ⟨kv, hm, by rw [hpl]; exact hnot⟩
+      rw [this] at hok
+      cases hok
+    have hpk : ∀ kv ∈ kvs, Plain kv.1 ∧ kv.1 ∈ keys e.params := fun kv hm => ⟨hp kv hm, hknown kv hm⟩
+    rw [setParams_plain checks e kvs hne hpk]
+    simp only [getParams]
+    refine ⟨?_, ?_, keys_applyAll _ _⟩
+    · intro kv hm
+      exact applyAll_get_of_mem hn hm (hknown kv hm)
+    · intro k hk
+      exact applyAll_get_other hk
+
+/-- For every class of the table: an estimator constructed with `p`, then
+`set_params(**p')` with a full set of arguments, is exactly (class, parameter store,
+attributes) the estimator constructed with `p'`, and the call returns normally. -/
+theorem set_params_eq_construct : ∀ c ∈ classTable, ∀ (p p' : Store) (e e' : Est),
+    construct c p = .ok e → construct c p' = .ok e' → (keys p').Nodup →
+    (∀ a ∈ c.args, (get? p' a).isSome) →
+    setParams c.checks e p' = ⟨e', none, []⟩ := by
+  intro c hc p p' e e' h h' hn' htot
+  obtain ⟨hnd, hpl, _, _⟩ := table_wf c hc
+  exact setParams_eq_construct_generic c hnd hpl p p' e e' h h' hn' htot
+
+/-- A float outside a range that `validate_params` declares raises `AssertionError`
+(for every list of checks, in particular every class of the table). -/
+theorem set_rejects_out_of_range (checks : List Check) (e : Est) (k : String) (lo hi : Option Bound)
+    (q : Rat) (hm : Check.range k lo hi ∈ checks) (hv : validate checks e.params = none)
+    (hp : Plain k) (hout : inRange lo hi q = false) :
+    (setParams checks e [(k, .flt q)]).err = some .assert := by
+  have hk : k ∈ keys e.params := by
+    have := evalCheck_none_of_validate hv hm
+    simp only [evalCheck] at this
+    apply get?_isSome_iff.mp
+    cases hg : get? e.params k with
+    | none => simp [hg] at this
+    | some v => rfl
+  have hpk : ∀ kv ∈ [(k, Val.flt q)], Plain kv.1 ∧ kv.1 ∈ keys e.params := by
+    intro kv hmem
+    simp only [List.mem_singleton] at hmem
+    subst hmem
+    exact ⟨hp, hk⟩
+  rw [setParams_plain checks e _ (by simp) hpk]
+  simp only [applyAll, List.foldl_cons, List.foldl_nil]
+  have hfail : evalCheck (assign e.params k (.flt q)) (.range k lo hi) ≠ none := by
+    simp [evalCheck, get?_assign_same _ hk, Val.numView, hout]
+  rcases validate_assign_flt q hk hv with h | h
+  · exact absurd h (validate_ne_none_of_mem hm hfail)
+  · exact h
+
+/-- Instantiation on the table: `rho` outside `[0, 1]` is rejected by every class that
+declares the unit range (all but BayesianART), `rho ≤ 0` by BayesianART. -/
+theorem rho_out_of_range_rejected : ∀ c ∈ classTable, ∀ (e : Est) (q : Rat),
+    validate c.checks e.params = none →
+    (if c.name = "BayesianART" then q ≤ 0 else (q < 0 ∨ 1 < q)) →
+    (setParams c.checks e [("rho", .flt q)]).err = some .assert := by
+  intro c hc e q hv hq
+  have hpl : Plain "rho" := by decide
+  obtain ⟨h1, h2⟩ := table_rho_range c hc
+  by_cases hb : c.name = "BayesianART"
+  · simp only [hb, if_true] at hq
+    apply set_rejects_out_of_range c.checks e "rho" gt0 none q (h2 hb) hv hpl
+    simp only [inRange, gt0, Bound.okLo, if_true, Bool.true_and, decide_eq_false_iff_not]
+    intro hlt
+    have : ((0 : Int) : Rat) = 0 := rfl
+    rw [this] at hlt
+    exact absurd hlt (Rat.not_lt.mpr hq)
+  · simp only [hb, if_false] at hq
+    apply set_rejects_out_of_range c.checks e "rho" ge0 le1 q (h1 hb) hv hpl
+    simp only [inRange, ge0, le1, Bound.okLo, Bound.okHi, Bool.and_eq_false_iff]
+    have h0 : ((0 : Int) : Rat) = 0 := rfl
+    have h1' : ((1 : Int) : Rat) = 1 := rfl
+    simp only [Bool.false_eq_true, if_false, h0, h1']
+    rcases hq with hq | hq
+    · right; exact decide_eq_false (Rat.not_le.mpr hq)
+    · left; exact decide_eq_false (Rat.not_le.mpr hq)
+
+/-! ### F25 — `set_params` assigns before it validates
+
+Full statement that FAILS for the faithful model (and for the code):
+  `(setParams checks e kvs).err ≠ none → (setParams checks e kvs).est = e`
+("a rejected call leaves the estimator as it was"). -/
+
+/-- F25, in general: the very float that `set_params` rejected with `AssertionError`
+is what `get_params` returns afterwards — for every class and every rejected value. -/
+theorem set_rejected_value_stays (checks : List Check) (e : Est) (k : String) (lo hi : Option Bound)
+    (q : Rat) (hm : Check.range k lo hi ∈ checks) (hv : validate checks e.params = none)
+    (hp : Plain k) (hout : inRange lo hi q = false) :
+    (setParams checks e [(k, .flt q)]).err = some .assert ∧
+    get? (getParams (setParams checks e [(k, .flt q)]).est) k = some (.flt q) := by
+  refine ⟨set_rejects_out_of_range checks e k lo hi q hm hv hp hout, ?_⟩
+  have hk : k ∈ keys e.params := by
+    have := evalCheck_none_of_validate hv hm
+    simp only [evalCheck] at this
+    apply get?_isSome_iff.mp
+    cases hg : get? e.params k with
+    | none => simp [hg] at this
+    | some v => rfl
+  have hpk : ∀ kv ∈ [(k, Val.flt q)], Plain kv.1 ∧ kv.1 ∈ keys e.params := by
+    intro kv hmem
+    simp only [List.mem_singleton] at hmem
+    subst hmem
+    exact ⟨hp, hk⟩
+  rw [setParams_plain checks e _ (by simp) hpk]
+  simp only [getParams, applyAll, List.foldl_cons, List.foldl_nil]
+  exact get?_assign_same _ hk
+
+/-- a valid FuzzyART(rho=1/2, alpha=0, beta=1) -/
+def fuzzyHalf : Est :=
+  ⟨"FuzzyART", [("rho", .flt (mkRat 1 2)), ("alpha", .flt 0), ("beta", .flt 1)], initAttrs⟩
+
+/-- F25, concrete: `FuzzyART(0.5, 0.0, 1.0).set_params(rho=2.0)` raises `AssertionError`
+and the estimator is not what it was: `rho` is now `2.0`. -/
+theorem set_rejected_value_stays_counterexample :
+    (setParams fuzzyART.checks fuzzyHalf [("rho", .flt 2)]).err = some .assert ∧
+    (setParams fuzzyART.checks fuzzyHalf [("rho", .flt 2)]).est ≠ fuzzyHalf ∧
+    get? (getParams (setParams fuzzyART.checks fuzzyHalf [("rho", .flt 2)]).est) "rho" = some (.flt 2) := by
+  decide
+
+/-- F25, second form: `set_params(alpha=0.25, bogus=1.0)` raises `ValueError` for the
+unknown name, but `alpha` — which came first — stays assigned. -/
+theorem set_unknown_after_known_stays_counterexample :
+    (setParams fuzzyART.checks fuzzyHalf [("alpha", .flt (mkRat 1 4)), ("bogus", .flt 1)]).err = some .value ∧
+    get? (getParams (setParams fuzzyART.checks fuzzyHalf
+      [("alpha", .flt (mkRat 1 4)), ("bogus", .flt 1)]).est) "alpha" = some (.flt (mkRat 1 4)) := by
+  decide
+
+/-- Partial: a rejected call leaves the estimator unchanged under the extra hypothesis
+that the rejection is for an unknown FIRST name (nothing has been assigned yet). -/
+theorem set_rejection_state_unchanged_partial (checks : List Check) (e : Est) (kv : String × Val)
+    (rest : List (String × Val)) (hu : (partitionKey kv.1).1 ∉ keys e.params) :
+    (setParams checks e (kv :: rest)).err = some .value ∧ (setParams checks e (kv :: rest)).est = e := by
+  obtain ⟨key, v⟩ := kv
+  have hn : (get? e.params (partitionKey key).1).isSome = false := by
+    cases hg : get? e.params (partitionKey key).1 with
+    | none => rfl
+    | some x => exact absurd (get?_isSome_iff.mp (by simp [hg])) hu
+  simp [setParams, setLoop, hn]
+
+/-- Partial: under the hypothesis that validation precedes assignment — i.e. for the
+variant `setParamsAtomic`, which differs from the code only in that — the verdict is the
+same, accepted calls have the same effect, and a rejected call leaves the estimator unchanged. -/
+theorem set_rejection_atomic_partial (checks : List Check) (e : Est) (kvs : List (String × Val)) :
+    (setParamsAtomic checks e kvs).err = (setParams checks e kvs).err ∧
+    ((setParams checks e kvs).err = none → setParamsAtomic checks e kvs = setParams checks e kvs) ∧
+    ((setParams checks e kvs).err ≠ none → (setParamsAtomic checks e kvs).est = e) := by
+  simp only [setParamsAtomic]
+  cases h : (setParams checks e kvs).err with
+  | none => simp [h]
+  | some err => simp
+
+/-! ### attributes mirror the parameters -/
+
+/-- Reading a parameter name as an attribute gives the value `get_params` holds. -/
+theorem attr_mirrors (e : Est) (hwf : e.WF) (k : String) (hk : k ∈ keys (getParams e)) :
+    ∃ v, get? (getParams e) k = some v ∧ getAttr e k = .ok v := by
+  have hs := get?_isSome_iff.mpr hk
+  cases hg : get? e.params k with
+  | none => simp [getParams, hg] at hs
+  | some v =>
+    refine ⟨v, hg, ?_⟩
+    simp only [getAttr, hwf.disjoint k hk, hg]
+
+/-- Writing a parameter name as an attribute writes `params`: `get_params` and the
+attribute both show the new value, no other parameter moves, `__dict__` is untouched. -/
+theorem attr_write_mirrors (e : Est) (hwf : e.WF) (k : String) (v : Val) (hk : k ∈ keys (getParams e)) :
+    get? (getParams (setAttr e k v)) k = some v ∧ getAttr (setAttr e k v) k = .ok v ∧
+    (∀ k', k' ≠ k → get? (getParams (setAttr e k v)) k' = get? (getParams e) k') ∧
+    (setAttr e k v).attrs = e.attrs := by
+  have hk' : k ∈ keys e.params := hk
+  rw [setAttr_param v hk']
+  simp only [getParams]
+  refine ⟨get?_assign_same v hk', ?_, fun k' hne => get?_assign_other v hne, ?_⟩
+  · simp only [getAttr, hwf.disjoint k hk', get?_assign_same v hk']
+  · trivial
+
+/-- Any other name is an ordinary attribute: `params` is untouched and the attribute reads back. -/
+theorem attr_non_param (e : Est) (k : String) (v : Val) (hk : k ∉ keys (getParams e)) :
+    getParams (setAttr e k v) = getParams e ∧ getAttr (setAttr e k v) k = .ok v := by
+  have hn : (get? e.params k).isSome = false := by
+    cases hg : get? e.params k with
+    | none => rfl
+    | some x =>
+      have : (get? e.params k).isSome = true := by rw [hg]; rfl
+      exact absurd (get?_isSome_iff.mp this) hk
+  have hu : get? (upsert e.attrs k v) k = some v := get?_upsert_same e.attrs k v
+  simp [setAttr, hn, getParams, getAttr, hu]
+
+/-- A name that is neither a parameter nor an attribute raises `AttributeError`. -/
+theorem attr_unknown (e : Est) (k : String) (h1 : get? e.attrs k = none) (h2 : k ∉ keys (getParams e)) :
+    getAttr e k = .error .attr := by
+  have h2' : get? e.params k = none := get?_eq_none_iff.mpr h2
+  simp only [getAttr, h1, h2']
+
+/-- The well-formedness the mirror theorems assume holds for every estimator the table
+constructs and is preserved by attribute writes and by `set_params` (also when it raises). -/
+theorem wf_invariant :
+    (∀ c ∈ classTable, ∀ kw e, construct c kw = .ok e → e.WF) ∧
+    (∀ e : Est, e.WF → ∀ k v, (setAttr e k v).WF) ∧
+    (∀ checks (e : Est), e.WF → ∀ kvs, (setParams checks e kvs).est.WF) := by
+  refine ⟨?_, fun e h k v => setAttr_WF h k v, ?_⟩
+  · intro c hc kw e h
+    obtain ⟨hnd, hpl, hdis, _⟩ := table_wf c hc
+    obtain ⟨s, hs, _, he⟩ := construct_ok h
+    obtain ⟨hks, _, _⟩ := bindArgs_spec hs
+    subst he
+    exact ⟨by simpa [hks] using hnd, by simpa [hks] using hpl, by simpa [hks] using hdis⟩
+  · intro checks e h kvs
+    obtain ⟨h1, h2, _⟩ := setParams_inv checks e kvs
+    exact ⟨by rw [h1]; exact h.nodup, by rw [h1]; exact h.plain, by rw [h1, h2]; exact h.disjoint⟩
+
+/-! ### ownership -/
+
+/-- A model whose weights are all `Own` is unchanged, as observed, by any in-place
+mutation of any caller array. -/
+theorem owns_state (h : Heap) (W : List Wt) (a i : Nat) (r : List Rat)
+    (hown : ∀ w ∈ W, w.isOwn = true) :
+    observe (h.mutateRow a i r) W = observe h W := by
+  simp only [observe]
+  exact List.map_congr_left (fun w hw => read_own_mutate h a i r (hown w hw))
+
+/-- Committing categories with `new_weight = np.copy(i)` (the code now) yields owned
+weights, hence a model unaffected by later mutation of the training array. -/
+theorem copied_weights_unaffected (h : Heap) (a n a' i : Nat) (r : List Rat) :
+    observe (h.mutateRow a' i r) (commitRows true h a n) = observe h (commitRows true h a n) :=
+  owns_state h _ a' i r (commitRows_copy_own h a n)
+
+/-- Without the copy (`return i`, the code before the F23 fix) the fitted model changes
+when the caller overwrites the training array. -/
+theorem aliased_weights_counterexample :
+    let h : Heap := [[[mkRat 1 2, mkRat 1 2], [mkRat 1 4, mkRat 3 4]]]
+    observe (h.mutateRow 0 0 [0, 0]) (commitRows false h 0 2) ≠ observe h (commitRows false h 0 2) := by
+  decide
+
+/-! ### non-vacuity -/
+
+/-- the table constructs the estimator used in the counterexamples, and it is valid -/
+example : construct fuzzyART [("rho", .flt (mkRat 1 2)), ("alpha", .flt 0), ("beta", .flt 1)] = .ok fuzzyHalf := by
+  rfl
+
+example : validate fuzzyART.checks fuzzyHalf.params = none := by decide
+
+/-- keyword order does not matter, defaults are filled in -/
+example : construct gaussianART [("sigma_init", .arr [mkRat 1 2, mkRat 1 2]), ("rho", .flt (mkRat 1 2))] =
+    .ok ⟨"GaussianART", [("rho", .flt (mkRat 1 2)), ("sigma_init", .arr [mkRat 1 2, mkRat 1 2]),
+                          ("alpha", .flt tenToMinus10)], initAttrs⟩ := by
+  rfl
+
+/-- an accepted `set_params` with new values: hypotheses of `set_then_get` are satisfiable -/
+example : (setParams fuzzyART.checks fuzzyHalf [("beta", .flt (mkRat 1 2)), ("rho", .flt (mkRat 3 4))]).err = none ∧
+    getParams (setParams fuzzyART.checks fuzzyHalf [("beta", .flt (mkRat 1 2)), ("rho", .flt (mkRat 3 4))]).est =
+      [("rho", .flt (mkRat 3 4)), ("alpha", .flt 0), ("beta", .flt (mkRat 1 2))] := by
+  decide
+
+/-- the different exception kinds of `validate_params` are all reachable -/
+example : (setParams fuzzyART.checks fuzzyHalf [("rho", .int 1)]).err = some .assert ∧
+    (setParams fuzzyART.checks fuzzyHalf [("rho", .lst [1])]).err = some .type ∧
+    (setParams fuzzyART.checks fuzzyHalf [("rho", .arr [1, 2])]).err = some .value ∧
+    (setParams fuzzyART.checks fuzzyHalf [("rho__x", .flt 1)]).err = some .attr ∧
+    (setParams fuzzyART.checks fuzzyHalf [("bogus", .flt 1)]).err = some .value := by
+  decide
+
+/-- `str.partition("__")` -/
+example : partitionKey "module_a__rho" = ("module_a", some "rho") ∧
+    partitionKey "a___b__c" = ("a", some "_b__c") ∧ partitionKey "r_hat" = ("r_hat", none) := by
+  decide
+
+/-- a nested name on an estimator-valued parameter is delegated, not interpreted -/
+example : (setParams [] ⟨"SimpleARTMAP", [("module_a", .mod 7)], []⟩
+      [("module_a__rho", .flt 1), ("module_a__beta", .flt 1)]).delegated =
+    [(7, [("rho", .flt 1), ("beta", .flt 1)])] := by
+  decide
+
+/-- attribute mirror on a concrete object, and an `Own` model under mutation -/
+example : getAttr fuzzyHalf "rho" = .ok (.flt (mkRat 1 2)) ∧ getAttr fuzzyHalf "sample_counter_" = .ok (.int 0) ∧
+    getAttr fuzzyHalf "foo" = .error .attr := by
+  refine ⟨rfl, rfl, rfl⟩
+
+example : fuzzyHalf.WF :=
+  wf_invariant.1 fuzzyART (by decide) [("rho", .flt (mkRat 1 2)), ("alpha", .flt 0), ("beta", .flt 1)] _ rfl
+
+example :
+    let h : Heap := [[[mkRat 1 2, mkRat 1 2], [mkRat 1 4, mkRat 3 4]]]
+    observe (h.mutateRow 0 0 [0, 0]) (commitRows true h 0 2) = [some [mkRat 1 2, mkRat 1 2], some [mkRat 1 4, mkRat 3 4]] := by
+  decide
 
 end Art.C19
